@@ -205,7 +205,7 @@ def run(ctx):
                 continue
             for n in ast.walk(lp):
                 if isinstance(n, ast.Call) and len(n.args) == 3 and isinstance(n.args[1], ast.Constant) and isinstance(n.args[1].value, str) \
-                        and src(n.args[0]) != g_.params[0] and isinstance(n.func, ast.Name):
+                        and src(n.args[0]) != g_.params[0] and isinstance(n.func, (ast.Name, ast.Attribute)):
                     patched.add(n.args[1].value)
     ctx.anchor(len(patched) >= 2, 'Chemical: expected >= 2 constants patched into the functors by name, found %s' % sorted(patched))
     ctx.extra['C07_patched'] = patched
